@@ -19,7 +19,7 @@ open U U.UU
 /-- **version 4** for every pair of draws (even full 64-bit ones) -/
 theorem version4 (a b : BitVec 64) : (randomID a b).version = 4 := by
   rw [version_eq]
-  show (Gen.uu_version (Gen.uu_rndHigher a b) (Gen.uu_rndLower a b)).toNat = 4
+  show ((Gen.uu_rndHigher a b >>> 12) &&& 15#64).toNat = 4
   rw [rnd_version_bv]; rfl
 
 /-- **variant 1** (bits `10`) for every first draw and every 63-bit second draw -/
